@@ -1,4 +1,5 @@
 import Tickit.Proof.RBFlushSpec
+import Tickit.Proof.RBFlushCount
 import Tickit.Proof.RBRefine
 /-
   C04: from C03's invariant to the hypothesis of `flush_spec`.  The run structure demanded by `FlushWF` (runs tile every
@@ -74,5 +75,284 @@ theorem flushWF_of_WF {rb : RB} (wf : WF rb) (hc : ContentOK rb) : FlushWF rb :=
   intro hlt hcont
   have := hrow.cont_lo 0 (by omega) hlt hcont
   omega
+
+/-! ## `ContentOK` of every buffer a drawing program produces
+
+  Shown at the level of C03's cell-wise specification (`RBAbs`), where every drawing operation is a `paint`, and carried
+  to the concrete buffer by C03's refinement theorem. -/
+
+open Tickit.RBAbs
+
+/-- A cell content the flush can present. -/
+def COK : Content → Prop
+  | .text _ s k => ∃ cs, decode s = some cs ∧ 0 ≤ k ∧ k < chCols cs
+  | .line _ m => 1 ≤ m ∧ m < 256
+  | .char _ cp => CharOK cp
+  | .skip => True
+  | .erase _ => True
+
+def AbsOK (a : AState) : Prop := ∀ L C, COK (a.content L C)
+
+/-- What an operation may draw: CHAR code points one column wide (the negation is the known finding
+    `char_not_one_column`) and line styles single / double / thick. -/
+def OpOK : Op → Prop
+  | .charAt _ _ cp => CharOK cp
+  | .char cp => CharOK cp
+  | .hlineAt _ _ _ st _ => 1 ≤ st ∧ st ≤ 3
+  | .vlineAt _ _ _ st _ => 1 ≤ st ∧ st ≤ 3
+  | _ => True
+
+theorem absOK_paint {a : AState} (h : AbsOK a) (covers : Int → Int → Bool) (what : Int → Int → Content → Content)
+    (hw : ∀ l c old, covers l c = true → COK old → COK (what l c old)) : AbsOK (paint a covers what) := by
+  intro L C
+  unfold paint
+  simp only
+  split
+  · rename_i hc
+    rw [Bool.and_eq_true] at hc
+    exact hw _ _ _ hc.1 (h L C)
+  · exact h L C
+
+theorem absOK_content_eq {a a' : AState} (h : AbsOK a) (he : a'.content = a.content) : AbsOK a' := by
+  intro L C; rw [he]; exact h L C
+
+theorem absOK_textAt {a : AState} (h : AbsOK a) (line col : Int) (s : List UInt8) : AbsOK (RBAbs.textAt a line col s) := by
+  unfold RBAbs.textAt
+  cases hs : Utf8.stringColumns s with
+  | none => exact h
+  | some n =>
+    obtain ⟨cs, hcs, hn⟩ := decode_of_stringColumns s n hs
+    apply absOK_paint h
+    intro l c old hc _
+    unfold inRun at hc
+    simp only [Bool.and_eq_true, decide_eq_true_eq] at hc
+    exact ⟨cs, hcs, by omega, by omega⟩
+
+theorem cok_mergeLine (pen : Pen) (bits : Nat) (old : Content) (hb : 1 ≤ bits ∧ bits < 256) (ho : COK old) :
+    COK (mergeLine pen bits old) := by
+  unfold mergeLine
+  cases old with
+  | line p m =>
+    simp only [COK] at ho ⊢
+    refine ⟨?_, ?_⟩
+    · have : m ≤ m ||| bits := Nat.left_le_or
+      omega
+    · exact Nat.or_lt_two_pow (n := 8) ho.2 hb.2
+  | skip => exact hb
+  | text _ _ _ => exact hb
+  | erase _ => exact hb
+  | char _ _ => exact hb
+
+theorem absOK_linecell {a : AState} (h : AbsOK a) (line col : Int) (bits : Nat) (hb : 1 ≤ bits ∧ bits < 256) :
+    AbsOK (RBAbs.linecell a line col bits) := by
+  unfold RBAbs.linecell
+  exact absOK_paint h _ _ (fun _ _ old _ ho => cok_mergeLine _ _ old hb ho)
+
+theorem absOK_lineLoop (cellAt : Int → Int × Int) (bits : Nat) (hb : 1 ≤ bits ∧ bits < 256) :
+    ∀ (n : Nat) (a : AState) (from_ : Int), AbsOK a → AbsOK (RBAbs.lineLoop cellAt bits a from_ n) := by
+  intro n
+  induction n with
+  | zero => intro a _ h; exact h
+  | succ k ih => intro a f h; exact ih _ _ (absOK_linecell h _ _ _ hb)
+
+open Tickit.Gen.RBWidth in
+/-- The bits one call of `linecell` adds: a style shifted into one direction, possibly or-ed with the opposite one. -/
+theorem lineBits_ok (st : Nat) (hst : 1 ≤ st ∧ st ≤ 3) (s1 s2 : Nat) (h1 : s1 = 0 ∨ s1 = 2 ∨ s1 = 4 ∨ s1 = 6)
+    (h2 : s2 = 0 ∨ s2 = 2 ∨ s2 = 4 ∨ s2 = 6) (b : Bool) :
+    1 ≤ (st <<< s1 ||| (if b then st <<< s2 else 0)) ∧ (st <<< s1 ||| (if b then st <<< s2 else 0)) < 256 ∧
+    1 ≤ ((if b then st <<< s2 else 0) ||| st <<< s1) ∧ ((if b then st <<< s2 else 0) ||| st <<< s1) < 256 ∧
+    1 ≤ (st <<< s1 ||| st <<< s2) ∧ (st <<< s1 ||| st <<< s2) < 256 := by
+  have : st = 1 ∨ st = 2 ∨ st = 3 := by omega
+  rcases this with rfl | rfl | rfl <;> rcases h1 with rfl | rfl | rfl | rfl <;> rcases h2 with rfl | rfl | rfl | rfl <;>
+    cases b <;> decide
+
+open Tickit.Gen.RBWidth in
+theorem absOK_hlineAt {a : AState} (h : AbsOK a) (l c1 c2 : Int) (st caps : Nat) (hst : 1 ≤ st ∧ st ≤ 3) :
+    AbsOK (RBAbs.hlineAt a l c1 c2 st caps) := by
+  unfold RBAbs.hlineAt
+  have e : c_EAST_SHIFT = 2 := rfl
+  have w : c_WEST_SHIFT = 6 := rfl
+  simp only [e, w]
+  have k1 := lineBits_ok st hst 2 6 (by simp) (by simp) (decide (caps &&& c_TICKIT_LINECAP_START ≠ 0))
+  have k2 := lineBits_ok st hst 6 2 (by simp) (by simp) (decide (caps &&& c_TICKIT_LINECAP_END ≠ 0))
+  simp only [decide_eq_true_eq] at k1 k2
+  apply absOK_linecell _ _ _ _ ⟨k2.2.2.1, k2.2.2.2.1⟩
+  apply absOK_lineLoop _ _ ⟨k1.2.2.2.2.1, k1.2.2.2.2.2⟩
+  exact absOK_linecell h _ _ _ ⟨k1.1, k1.2.1⟩
+
+open Tickit.Gen.RBWidth in
+theorem absOK_vlineAt {a : AState} (h : AbsOK a) (l1 l2 c : Int) (st caps : Nat) (hst : 1 ≤ st ∧ st ≤ 3) :
+    AbsOK (RBAbs.vlineAt a l1 l2 c st caps) := by
+  unfold RBAbs.vlineAt
+  have e : c_NORTH_SHIFT = 0 := rfl
+  have w : c_SOUTH_SHIFT = 4 := rfl
+  simp only [e, w]
+  have k1 := lineBits_ok st hst 4 0 (by simp) (by simp) (decide (caps &&& c_TICKIT_LINECAP_START ≠ 0))
+  have k2 := lineBits_ok st hst 0 4 (by simp) (by simp) (decide (caps &&& c_TICKIT_LINECAP_END ≠ 0))
+  simp only [decide_eq_true_eq] at k1 k2
+  apply absOK_linecell _ _ _ _ ⟨k2.2.2.1, k2.2.2.2.1⟩
+  apply absOK_lineLoop _ _ ⟨k1.2.2.2.2.1, k1.2.2.2.2.2⟩
+  exact absOK_linecell h _ _ _ ⟨k1.1, k1.2.1⟩
+
+theorem absOK_atCursor {a : AState} (h : AbsOK a) (draw : AState → Int → Int → AState) (adv : Int)
+    (hd : ∀ l c, AbsOK (draw a l c)) : AbsOK (atCursor a draw adv) := by
+  unfold atCursor
+  cases a.vc with
+  | none => exact h
+  | some p => exact absOK_content_eq (hd p.1 p.2) rfl
+
+theorem absOK_step {a : AState} (h : AbsOK a) (o : Op) (ho : OpOK o) : AbsOK (RBAbs.step a o) := by
+  have perase : ∀ l c n, AbsOK (RBAbs.eraseAt a l c n) := by
+    intro l c n
+    unfold RBAbs.eraseAt
+    exact absOK_paint h _ _ (fun _ _ _ _ _ => trivial)
+  have pskip : ∀ l c n, AbsOK (RBAbs.skipAt a l c n) := by
+    intro l c n
+    unfold RBAbs.skipAt
+    exact absOK_paint h _ _ (fun _ _ _ _ _ => trivial)
+  have pchar : ∀ l c cp, CharOK cp → AbsOK (RBAbs.charAt a l c cp) := by
+    intro l c cp hcp
+    unfold RBAbs.charAt
+    exact absOK_paint h _ _ (fun _ _ _ _ _ => hcp)
+  have prect : ∀ r, AbsOK (RBAbs.eraserect a r) := by
+    intro r
+    unfold RBAbs.eraserect
+    exact absOK_paint h _ _ (fun _ _ _ _ _ => trivial)
+  cases o with
+  | textAt l c s => exact absOK_textAt h l c s
+  | text s => exact absOK_atCursor h _ _ (fun l c => absOK_textAt h l c s)
+  | eraseAt l c n => exact perase l c n
+  | erase n => exact absOK_atCursor h _ _ (fun l c => perase l c n)
+  | eraseTo c =>
+    simp only [RBAbs.step, RBAbs.eraseTo]
+    cases a.vc with
+    | none => exact h
+    | some p => exact absOK_content_eq (perase p.1 p.2 (c - p.2)) rfl
+  | skipAt l c n => exact pskip l c n
+  | skip n => exact absOK_atCursor h _ _ (fun l c => pskip l c n)
+  | skipTo c =>
+    simp only [RBAbs.step, RBAbs.skipTo]
+    cases a.vc with
+    | none => exact h
+    | some p => exact absOK_content_eq (pskip p.1 p.2 (c - p.2)) rfl
+  | charAt l c cp => exact pchar l c cp ho
+  | char cp => exact absOK_atCursor h _ _ (fun l c => pchar l c cp ho)
+  | hlineAt l c1 c2 st caps => exact absOK_hlineAt h l c1 c2 st caps ho
+  | vlineAt l1 l2 c st caps => exact absOK_vlineAt h l1 l2 c st caps ho
+  | clear => exact prect _
+  | eraserect r => exact prect r
+  | skiprect r =>
+    show AbsOK (RBAbs.skiprect a r)
+    unfold RBAbs.skiprect
+    exact absOK_paint h _ _ (fun _ _ _ _ _ => trivial)
+  | goto l c => exact absOK_content_eq h rfl
+  | ungoto => exact absOK_content_eq h rfl
+  | translate d r => exact absOK_content_eq h rfl
+  | clip r => exact absOK_content_eq h rfl
+  | mask r => exact absOK_content_eq h rfl
+  | setpen p =>
+    simp only [RBAbs.step, RBAbs.setpen]
+    cases a.stack <;> exact absOK_content_eq h rfl
+  | save => exact absOK_content_eq h rfl
+  | savepen => exact absOK_content_eq h rfl
+  | restore =>
+    simp only [RBAbs.step, RBAbs.restore]
+    cases a.stack with
+    | nil => exact h
+    | cons f rest =>
+      simp only
+      split <;> exact absOK_content_eq h rfl
+  | reset => intro L C; exact trivial
+
+theorem absOK_run : ∀ (prog : List Op) (a : AState), AbsOK a → (∀ o ∈ prog, OpOK o) → AbsOK (RBAbs.run a prog) := by
+  intro prog
+  induction prog with
+  | nil => intro a h _; exact h
+  | cons o rest ih =>
+    intro a h ho
+    exact ih _ (absOK_step h o (ho o (by simp))) (fun o' h' => ho o' (by simp [h']))
+
+/-! ## Back to the concrete buffer -/
+
+theorem absContent_start {rb : RB} {l c : Int} (hg : rb.inGrid l c) (hs : (rb.cell l c).state ≠ .cont) :
+    absContent rb l c =
+      match (rb.cell l c).state with
+      | .skip => .skip
+      | .text => .text (rb.cell l c).pen (rb.cell l c).text ((rb.cell l c).offs + 0)
+      | .erase => .erase (rb.cell l c).pen
+      | .line => .line (rb.cell l c).pen (rb.cell l c).lmask
+      | .char => .char (rb.cell l c).pen (rb.cell l c).cp
+      | .cont => .skip := by
+  unfold RB.inGrid at hg
+  have hb : inBuf rb.lines rb.cols l c = true := by
+    unfold inBuf; simp only [Bool.and_eq_true, decide_eq_true_eq]; omega
+  unfold absContent
+  rw [if_pos hb]
+  simp only [hs, if_false]
+  generalize (rb.cell l c).state = st
+  cases st <;> rfl
+
+theorem absContent_cont {rb : RB} {l c : Int} (hg : rb.inGrid l c) (hs : (rb.cell l c).state = .cont)
+    (ht : (rb.cell l (rb.cell l c).cols).state = .text) :
+    absContent rb l c = .text (rb.cell l (rb.cell l c).cols).pen (rb.cell l (rb.cell l c).cols).text
+      ((rb.cell l (rb.cell l c).cols).offs + (c - (rb.cell l c).cols)) := by
+  unfold RB.inGrid at hg
+  have hb : inBuf rb.lines rb.cols l c = true := by
+    unfold inBuf; simp only [Bool.and_eq_true, decide_eq_true_eq]; omega
+  unfold absContent
+  rw [if_pos hb]
+  simp only [hs, if_true, ht]
+
+/-- The content C03's specification assigns to the cells is presentable, so the start cells of the concrete buffer
+    are. -/
+theorem contentOK_of_abs {rb : RB} {a : AState} (wf : WF rb) (R : Refines rb a) (h : AbsOK a) : ContentOK rb := by
+  intro l c hg
+  have hg' := hg
+  unfold RB.inGrid at hg'
+  have hrow := wf.rows l hg'.1 hg'.2.1
+  have hcell : ∀ k, rb.cell l k = (rb.cells l).get k := fun _ => rfl
+  refine ⟨?_, ?_, ?_⟩
+  · intro hs
+    have := h l c
+    rw [R.content, absContent_start hg (by rw [hs]; simp), hs] at this
+    exact this
+  · intro hs
+    have := h l c
+    rw [R.content, absContent_start hg (by rw [hs]; simp), hs] at this
+    exact this
+  · intro hs
+    have h1 := h l c
+    rw [R.content, absContent_start hg (by rw [hs]; simp), hs] at h1
+    obtain ⟨cs, hcs, h0, _⟩ := h1
+    have hnc : ((rb.cells l).get c).state ≠ .cont := by rw [← hcell, hs]; simp
+    obtain ⟨hpos, hfit⟩ := hrow.start_len c hg'.2.2.1 hg'.2.2.2 hnc
+    rw [← hcell] at hpos hfit
+    refine ⟨cs, hcs, by omega, ?_⟩
+    by_cases hone : (rb.cell l c).cols = 1
+    · have h1' := h l c
+      rw [R.content, absContent_start hg (by rw [hs]; simp), hs] at h1'
+      obtain ⟨cs', hcs', _, hlt⟩ := h1'
+      rw [hcs] at hcs'; cases hcs'
+      omega
+    · -- the last cell of the run is a CONT cell pointing at `c`
+      have hlast := hrow.start_run c (c + (rb.cell l c).cols - 1) hg'.2.2.1 hg'.2.2.2 hnc (by omega)
+        (by rw [← hcell]; omega)
+      rw [← hcell] at hlast
+      have hgl : rb.inGrid l (c + (rb.cell l c).cols - 1) := by unfold RB.inGrid; omega
+      have h2 := h l (c + (rb.cell l c).cols - 1)
+      rw [R.content, absContent_cont hgl hlast.1 (by rw [hlast.2]; exact hs), hlast.2] at h2
+      obtain ⟨cs', hcs', _, hlt⟩ := h2
+      rw [hcs] at hcs'; cases hcs'
+      omega
+
+/-- Every buffer a drawing program produces from a fresh one — with one-column CHAR code points and line styles
+    1 … 3 — satisfies the hypothesis of `flush_spec`. -/
+theorem flushWF_of_program (lines cols g1 g2 : Int) (hl : 0 ≤ lines) (hc : 0 < cols) (prog : List Op)
+    (hok : ∀ o ∈ prog, OpOK o) : FlushWF (RB.run (RB.new lines cols g1 g2) prog) := by
+  obtain ⟨wf0, r0⟩ := new_refines lines cols g1 g2 hl hc
+  obtain ⟨wf, R⟩ := run_refines prog wf0 r0
+  have habs : AbsOK (RBAbs.run (AState.new lines cols) prog) :=
+    absOK_run prog _ (fun _ _ => trivial) hok
+  exact flushWF_of_WF wf (contentOK_of_abs wf R habs)
 
 end Tickit.RBFlush
